@@ -27,6 +27,7 @@ import (
 
 	"github.com/buchgr/bazel-remote/v2/cache"
 	pb "github.com/buchgr/bazel-remote/v2/genproto/build/bazel/remote/execution/v2"
+	"github.com/buchgr/bazel-remote/v2/utils/verifhook/vsched"
 	"github.com/buchgr/bazel-remote/v2/verifdrv/vlib"
 )
 
@@ -155,7 +156,20 @@ func (s *vfCSys) run(o *vfCOp) vfCRes {
 		case "extra":
 			r = io.MultiReader(bytes.NewReader(o.data), bytes.NewReader([]byte("x")))
 		}
+		if o.bad == "createfail" {
+			// environment deviation: the file for this upload cannot be created
+			h := o.key.hash
+			vsched.SetOpenFault(func(name string, flag int) error {
+				if flag&os.O_CREATE != 0 && strings.Contains(name, h) {
+					return &os.PathError{Op: "open", Path: name, Err: errors.New("too many open files (injected)")}
+				}
+				return nil
+			})
+		}
 		err := s.cc.Put(ctx, o.key.kind, o.key.hash, o.size, r)
+		if o.bad == "createfail" {
+			vsched.SetOpenFault(nil)
+		}
 		return vfCRes{class: vfErrCode(err)}
 	case "get", "getzstd":
 		if s.proxy != nil && o.fault != nil {
@@ -577,6 +591,8 @@ func vfCAlphabet(mode string, max int64, withProxy bool) []*vfCOp {
 		put("put(raw,k,w1)", kraw, w1, ""),
 		put("put(ac,k,v2,short)", kac, v2, "short"),
 		put("put(raw,k,w1,reader-error)", kraw, w1, "readerr"),
+		put("put(cas,b,file-creation-fails)", kb, db, "createfail"),
+		put("put(ac,k,v2,file-creation-fails)", kac, v2, "createfail"),
 		{name: "get(cas,a,size)", what: "get", key: ka, size: int64(len(da))},
 		{name: "get(cas,b,-1)", what: "get", key: kb, size: -1},
 		{name: "getzstd(cas,z,size)", what: "getzstd", key: kz, size: int64(len(z))},
